@@ -447,6 +447,14 @@ def narrow_completion_label(op, df_in, exc):
     return None
 
 
+def mixed_text_dtypes(df, p):
+    """the compared columns (match columns + the code column) mix pandas 'str' and 'object' dtypes - only tables produced
+    by an earlier operation of the list do that"""
+    cols = [c for c in (p.get("match_columns") or []) + [p["column_name"]] if c in df.columns]
+    kinds = {str(df[c].dtype) for c in cols}
+    return "object" in kinds and len(kinds) > 1
+
+
 def has_d11(ops):
     return any(o["operation"] == "reorder_columns" and o["parameters"].get("keep_others") for o in ops)
 
@@ -565,6 +573,8 @@ def eval_meaning(payload):
             break
         obs = view(got[1])
         if not compare(exp[1], exp[2], obs):
+            if op["operation"] == "merge_consecutive" and mixed_text_dtypes(cur, op["parameters"]):
+                label = "C17.meaning.merge_consecutive_mixed_str_object_columns"
             fails.append((label, step_inp, js_view(obs), js_view(exp[1])))
             break
         if not same_table(view(cur), obs):
@@ -845,6 +855,8 @@ def valid_param_sets(name, rich):
         pools = {"column_name": ["x", "m"] if rich else ["x"], "event_code": ["a", 1, "1", 1.0] if rich else ["a", 1, "1"],
                  "match_columns": [[], ["y"], ["y", "m"], ["y", "z"]] if rich else [[], ["y"], ["y", "m"]]}
         for p in gen_objects(S, pools):
+            if not doc_valid(name, p):
+                continue
             out.append((p, "time" if p["set_durations"] else "generic"))
             if p["set_durations"] and p["ignore_missing"] and p["event_code"] == "a":
                 out.append((p, "generic"))   # documented ValueError: no onset/duration columns
@@ -1097,6 +1109,25 @@ HIST_TABLE_SETS = {
 }
 
 
+FIXED_COMPOSED = [
+    # remap leaves an object-dtype destination column; merge_consecutive then compares rows over str and object columns
+    ([op_dict("remap_columns", {"source_columns": ["x"], "destination_columns": ["z"],
+                                "map_list": [["a", "A"], ["1", "B"], ["n/a", 2]], "ignore_missing": True}),
+      op_dict("merge_consecutive", {"column_name": "x", "event_code": "1", "set_durations": False, "ignore_missing": True,
+                                    "match_columns": ["y", "z"]})],
+     {"cols": ["x", "y"], "rows": [["1", "n/a"], ["1", "n/a"], ["a", "b"]]}),
+    ([op_dict("rename_columns", {"column_mapping": {"x": "p"}, "ignore_missing": False}),
+      op_dict("reorder_columns", {"column_order": ["y", "p"], "ignore_missing": False, "keep_others": False}),
+      op_dict("remove_rows", {"column_name": "p", "remove_values": ["a", 1]})],
+     {"cols": ["x", "y", "z"], "rows": [["a", "1", "n/a"], ["1", "n/a", "b"], ["n/a", "1.0", "a"]]}),
+    ([op_dict("factor_column", {"column_name": "x", "factor_values": ["a", "1"], "factor_names": ["fa", "f1"]}),
+      op_dict("remove_columns", {"column_names": ["x", "m"], "ignore_missing": True}),
+      op_dict("merge_consecutive", {"column_name": "fa", "event_code": 1, "set_durations": False, "ignore_missing": True,
+                                    "match_columns": ["y"]})],
+     {"cols": ["x", "y"], "rows": [["a", "n/a"], ["a", "n/a"], ["1", "b"]]}),
+]
+
+
 def composed_lists(rng, singles, n):
     """2-3 operation lists sampled from the valid single-operation parameter sets on generic tables"""
     pool = [(name, p) for name in OPS8 for p, fam in singles[name] if fam == "generic"
@@ -1153,6 +1184,8 @@ def build_cases(w):
     for ops in comp:
         for t in generic_tables(rng, 2, 4, 6) if quick else generic_tables(rng, 6, 12, 14):
             cases.append({"kind": "meaning", "ops": copy.deepcopy(ops), "table": t})
+    for ops, t in FIXED_COMPOSED:
+        cases.append({"kind": "meaning", "ops": copy.deepcopy(ops), "table": copy.deepcopy(t)})
     n_comp = len(cases) - n_single
     # ---- history
     seqs = SEQS_QUICK if quick else SEQS_ALL
